@@ -69,6 +69,8 @@ def c11(t, md, steps, flags):
     cur = [strip_caps(x) for x in cur]
     et = t[1] if t[0] == 'vec' else None
     _, _, cap_expected = vec_geom(t, md['len'])
+    if steps[0].get('ab', 'ok') != 'ok':
+        out.append("initial state: the value's own bytes (as_bytes) do not re-map to the same state: %s" % steps[0].get('ab'))
     if cap0 != cap_expected:
         out.append('capacity %s, expected %d for a %d byte buffer' % (cap0, cap_expected, md['len']))
     d, s, _ = vec_geom(t, md['len'])
@@ -145,6 +147,10 @@ def c11(t, md, steps, flags):
             break
         if st.get('val') != 'ok':
             out.append('step %d %s: the bytes no longer validate: %s' % (i, op_s[:60], st.get('val')))
+            break
+        if st.get('ab', 'ok') != 'ok':
+            out.append("step %d %s: the value's own bytes (as_bytes) do not re-map to the same state: %s"
+                       % (i, op_s[:60], st.get('ab')))
             break
         cap1, got = items_of(st['view'])
         got = [strip_caps(x) for x in got]
